@@ -164,9 +164,21 @@ int main(int argc, char ** argv)
     }
     action.SetConfiguration(cfg);
     int aborts0 = g4mock::recorder().abort_run;
+    // the gun the action publishes can be touched by the application (GetParticleGun(), '/gun/number N'): whatever it holds before
+    // an event, the action still produces exactly one primary per BxDecay0 particle
+    const bool touch_gun = (ci % 4 == 1);
+    if (touch_gun) {
+      lab += "/gun-touched";
+      classes.insert(lab);
+    }
     for (int ie = 0; ie < nev; ie++) {
       bxdecay0::event e;
       ref.shoot(prng, e);
+      if (touch_gun && action.GetParticleGun() != nullptr) {
+        action.GetParticleGun()->SetNumberOfParticles(2 + ie % 3);
+        action.GetParticleGun()->SetParticleTime(123.0);
+        action.GetParticleGun()->SetParticleEnergy(7.0);
+      }
       G4Event g4ev;
       long shots0 = cvg.shots;
       try {
